@@ -62,24 +62,24 @@ package cache
 // assumes the invariant; releasing it has to re-establish the invariant.
 // `locked` is a per-goroutine ghost; `held` are the bytes reserved by the current
 // invocation (rely: other goroutines never release our reservation).
-//@ ghost locked Bool
+//@ ghost muHeld Bool
 //@ ghost held Int
 //@ pred lruOf(m) = fieldowner(m, "disk.diskCache", "mu").lru
 //@ modset lruState(l) = l.currentSize, l.reservedSize, l.uncompressedSize, l.totalDiskSizePeak, l.ll.seq, mapof(l.cache),
 //@    #list.Element.owner, #list.Element.Value, #disk.lruItem.size, #disk.lruItem.sizeOnDisk, #disk.lruItem.legacy, #disk.lruItem.random, #disk.entry.key, evq, qobs
 
 //@ extern (*sync.Mutex).Lock@cache/disk.diskCache.mu(m)
-//@   requires nodeadlock: !locked
-//@   modifies locked, lruState(lruOf(m))
-//@   ensures locked
+//@   requires nodeadlock: !muHeld
+//@   modifies muHeld, lruState(lruOf(m))
+//@   ensures muHeld
 //@   ensures lruInv(lruOf(m)) && lruOf(m).reservedSize >= held
 
 //@ extern (*sync.Mutex).Unlock@cache/disk.diskCache.mu(m)
-//@   requires islocked: locked
+//@   requires islocked: muHeld
 //@   requires inv: lruInv(lruOf(m))
 //@   requires guarantee: lruOf(m).reservedSize >= held
-//@   modifies locked
-//@   ensures !locked
+//@   modifies muHeld
+//@   ensures !muHeld
 
 // cache.Proxy: a backend is fully nondeterministic. The only thing recorded is
 // what it answered (ghost events), so that callers' contracts can refer to it.
@@ -126,6 +126,18 @@ package cache
 
 //@ extern (*os.File).Sync(f)
 //@   pure
+
+//@ extern (*os.File).Seek(f, offset, whence)
+//@   pure
+
+//@ extern (*os.File).Stat(f)
+//@   pure
+//@   ensures result1 == nil ==> result0 != nil
+
+// ASSUMED: no file is larger than 2^62 bytes.
+//@ iface (io/fs.FileInfo).Size(fi)
+//@   pure
+//@   ensures 0 <= result && result <= B62()
 
 //@ extern path.Join(elem)
 //@   pure
